@@ -7,10 +7,10 @@ import os
 VERIF = os.path.dirname(os.path.dirname(os.path.abspath(__file__)))
 
 CHECKS = {
-    'C01': dict(level='exploration', technique='end-to-end crawl monitor: server request log + URL-table rows vs independent scope/BFS reference, over generated sites, options, concurrency and response orders',
+    'C01': dict(level='exploration', technique='end-to-end crawl monitor: server request log + URL-table rows vs independent scope/BFS reference, over generated sites, options, concurrency and response orders; monitor B: FTP server command log of recursive FTP crawls (every file retrieved exactly once)',
                 text='Real application crawls of generated site graphs against a logging loopback server; an offline checker decides exactly-once, fixpoint completeness and final states on the recorded trace. Sampling, not exhaustive.',
                 note='compat runtime; harness server and reference scope predicate are trusted; loopback sockets'),
-    'C02': dict(level='exploration', technique='differential runtime oracle: real filter stack built from real CLI options vs independent scope predicate; plus request-log monitor on crawls offering out-of-scope links',
+    'C02': dict(level='exploration', technique='differential runtime oracle: real filter stack built from real CLI options vs independent scope predicate; plus request-log monitor on crawls offering out-of-scope links (HTTP sites and recursive FTP trees)',
                 text='Verdicts of the real DemuxURLFilter/FetchRule on boundary-directed (URL, record, option-set) triples are compared with an independent reference; crawls against allowed/forbidden hosts are monitored at the server log.',
                 note='reference predicate written from doc/options.rst; compat runtime'),
     'C03': dict(level='fault_enumeration', technique='kill-point enumeration (every SQL statement/commit and every server request phase) with resume; request-log and database-row oracle',
@@ -19,7 +19,7 @@ CHECKS = {
     'C04': dict(level='exploration', technique='wire-byte vs WARC-block comparison with an independent WARC reader under scripted in-memory peers and all segmentations',
                 text='The real HTTP client + WARC recorder talk to scripted peers; an independent reader extracts record blocks which must equal the bytes sent/received, for generated header formats, framings, bodies and segmentations.',
                 note='independent WARC reader; in-memory transport replaces only asyncio.open_connection'),
-    'C05': dict(level='exploration', technique='strict independent WARC/gzip reader over files written by the real recorder across configurations',
+    'C05': dict(level='exploration', technique='strict independent WARC/gzip reader over files written by the real recorder across configurations (sequential, overlapping and redirect-following sessions, FTP sessions, coprocessor records, size rollover, --warc-move)',
                 text='Every file written is parsed by a strict independent WARC/1.0 reader which recomputes lengths, digests, IDs and member boundaries.',
                 note='independent reader; hashlib/zlib'),
     'C06': dict(level='fault_enumeration', technique='syscall-level fault/kill injection (LD_PRELOAD) at every write/close/unlink/open of an append; byte-exact archive oracle',
@@ -31,7 +31,7 @@ CHECKS = {
     'C08': dict(level='exploration', technique='differential monitor: real HTTP stream/session vs independent RFC 7230 reference decoder over all segmentations',
                 text='Well-formed and truncated response streams from a grammar are fed through every single cut / single-byte / random segmentation; results must equal the reference and be segmentation independent.',
                 note='reference decoder; in-memory transport'),
-    'C09': dict(level='exploration', technique='hostile-peer fuzzing with exception-class oracle at the session / robots / scraper entry points and end-to-end crawls',
+    'C09': dict(level='exploration', technique='hostile-peer fuzzing with exception-class oracle at the session / robots / scraper entry points (with the WARC recorder and progress printers listening) and end-to-end HTTP and FTP crawls against hostile servers under many option sets',
                 text='Grammar-aware mutations and random bytes are served to the real HTTP/FTP sessions, robots checker and scrapers; only the per-URL error kinds may escape.',
                 note='in-memory transport; classification by exception type and innermost wpull function'),
     'C10': dict(level='exploration', technique='runtime oracle on URLInfo.parse outputs: idempotence, component stability, canonical-form predicates, variant-family unification over generated spellings',
@@ -40,10 +40,10 @@ CHECKS = {
     'C11': dict(level='exploration', technique='totality monitor: exception-type and termination oracle on parse/join entry points and every accessor over hostile Unicode',
                 text='Every generated string goes through URLInfo.parse, all documented accessors, parse_url_or_log, urljoin and urljoin_safe in watchdogged children; only ValueError may escape, RecursionError/timeouts are violations.',
                 note='per-batch child processes with timeouts'),
-    'C12': dict(level='exploration', technique='controlled event-loop scheduler (one handle per step, DFS + random schedules) with invariant monitor between steps and at quiescence; cancellation/connect-failure/remote-close fault branches',
+    'C12': dict(level='exploration', technique='controlled event-loop scheduler (one handle per step, DFS + random schedules) with invariant monitor between steps and at quiescence; cancellation/connect-failure/remote-close fault branches; monitor B: the real HTTP / web / robots clients and generic pool clients over direct, proxy and dual-stack pools against hostile peers, with quiescence, probe-fetch and transport-closed oracles',
                 text='The real ConnectionPool runs on a deterministic scheduler that enumerates resume orders; holder sets, per-host bounds, lost wake-ups and leaks are asserted between steps and at quiescence.',
                 note='scheduler replaces only the event loop run-once policy; in-memory transports'),
-    'C13': dict(level='exploration', technique='controlled event-loop scheduler with task/source event log and quiescence (hang) detection; stop/concurrency-change/exception branches',
+    'C13': dict(level='exploration', technique='controlled event-loop scheduler with task/source event log and quiescence (hang) detection; stop/concurrency-change/exception branches; monitor B: the real Application over a pipeline series configured like the real Builder, with stop requests, pauses and interrupt signals',
                 text='The real Pipeline runs with instrumented source and tasks on the deterministic scheduler; an oracle over the (task,item,start/end) log decides order/at-most-once/exactly-once and bounded completion.',
                 note='scheduler; instrumented ItemSource/ItemTask are harness code'),
     'C14': dict(level='exploration', technique='model-based runtime monitor: every table call compared with a dict reference after each step of generated histories, incl. reopen',
@@ -52,7 +52,7 @@ CHECKS = {
     'C15': dict(level='exploration', technique='path-containment oracle on PathNamer / writer-session outputs for generated URLs x naming options x Content-Disposition',
                 text='Real PathNamer and writer sessions built from real CLI options name files for hostile URLs and headers; every component below the prefix is checked.',
                 note='oracle from the statement'),
-    'C16': dict(level='exploration', technique='strict request parser over client bytes captured from the real WebSession through scripted redirect/cookie/auth peers',
+    'C16': dict(level='exploration', technique='strict request parser over client bytes captured from the real WebSession through scripted redirect/cookie/auth peers (direct, relaying / TLS / tunnelling / authenticating proxies); monitor B: per-origin secret markers searched in every raw request of whole crawls; monitor C: requests relayed by the proxy server from a pipelining client',
                 text='Every request the real client writes to the fake connection is parsed strictly and compared with the hop URL; credential/cookie provenance is tracked per host.',
                 note='in-memory transport'),
     'C17': dict(level='exploration', technique='control-connection byte monitor and reply-segmentation differential under scripted FTP peers',
